@@ -21,6 +21,7 @@ import (
 	"sort"
 	"strings"
 	"sync"
+	"time"
 
 	"golang.org/x/tools/go/ssa"
 )
@@ -268,6 +269,12 @@ func runComposeCase(p *Program, it *Interp, sp *composeSpec, cs composeCase) (re
 			res = composeResult{verdict: Undecided, detail: fmt.Sprintf("interpreter panic: %v", x)}
 		}
 	}()
+	t0 := time.Now()
+	defer func() {
+		if os.Getenv("ORBCHECK_STATS") != "" {
+			fmt.Printf("TIME %6.1fs %s(%s)\n", time.Since(t0).Seconds(), sp.entry, cs.label)
+		}
+	}()
 	fn := p.funcByShortKey(sp.entry)
 	it.Oracles = map[*ssa.Function]oracleFunc{}
 	it.Terms = sp.terms
@@ -299,51 +306,19 @@ func runComposeCase(p *Program, it *Interp, sp *composeSpec, cs composeCase) (re
 		s.heap[k] = v
 	}
 	args, ctx := cs.build(it, s)
-	it.pushFrame(s, fn, args, nil, nil)
-	it.Run(s)
-	for _, step := range sp.steps {
-		cur := it.Finished
-		var next []*State
-		for _, st := range cur {
-			name, sargs, ok := step(it, st, ctx)
-			if !ok {
-				next = append(next, st) // the path ends here (nothing to feed on)
-				continue
-			}
-			sf := p.funcByShortKey(name)
-			if sf == nil {
-				return composeResult{verdict: Undecided, detail: "step function " + name + " not found"}
-			}
-			st.done, st.result = false, nil
-			it.Finished = nil
-			it.pushFrame(st, sf, sargs, nil, nil)
-			it.Run(st)
-			next = append(next, it.Finished...)
-		}
-		it.Finished = next
-	}
 	pos := p.Pos(fn.Pos())
-	if os.Getenv("ORBCHECK_STATS") != "" {
-		fmt.Printf("STATS %s(%s): paths=%d finished=%d truncated=%d %v steps=%d\n", sp.entry, cs.label, it.Paths, len(it.Finished), it.Truncated, it.TruncWhy, it.Steps)
-	}
-	if it.Truncated > 0 && !sp.skipTruncated {
-		return composeResult{verdict: Undecided, pos: pos, detail: fmt.Sprintf("exploration truncated (%v); the composition is not decided", it.TruncWhy)}
-	}
-	truncated := it.Truncated
-	for _, f := range it.Faults {
-		if f.Free {
-			return composeResult{verdict: Violated, pos: p.InstrPos(f.In), detail: fmt.Sprintf("%s fault while composing: %s", f.Kind, f.Detail)}
-		}
-	}
 	judged, skipped, infeasible := 0, 0, 0
-	for _, st := range it.Finished {
+	var failure *composeResult
+	// depth first over the steps, so that only one branch of finished states is alive at a time
+	var leaf func(st *State)
+	leaf = func(st *State) {
 		if !sp.anyPath && !onlyOracleTrail(st, sp.terms) {
 			skipped++
-			continue
+			return
 		}
 		if sp.terms && pathOrder(it, st, nil).infeasible() {
 			infeasible++ // the comparisons assumed on this path contradict each other
-			continue
+			return
 		}
 		judged++
 		if why := sp.judge(it, ctx, st); why != "" {
@@ -372,8 +347,59 @@ func runComposeCase(p *Program, it *Interp, sp *composeSpec, cs composeCase) (re
 				}
 				wit = append(wit, "comparisons assumed on this path: "+strings.Join(facts, "; "))
 			}
-			return composeResult{verdict: Violated, pos: pos, detail: why + "; expected: " + sp.desc, witness: wit}
+			failure = &composeResult{verdict: Violated, pos: pos, detail: why + "; expected: " + sp.desc, witness: wit}
 		}
+	}
+	var from func(st *State, k int)
+	from = func(st *State, k int) {
+		if failure != nil {
+			return
+		}
+		if k == len(sp.steps) {
+			leaf(st)
+			return
+		}
+		name, sargs, ok := sp.steps[k](it, st, ctx)
+		if !ok {
+			from(st, k+1) // nothing to feed on: the path ends with what it has
+			return
+		}
+		sf := p.funcByShortKey(name)
+		if sf == nil {
+			failure = &composeResult{verdict: Undecided, detail: "step function " + name + " not found"}
+			return
+		}
+		st.done, st.result = false, nil
+		it.Finished = nil
+		it.pushFrame(st, sf, sargs, nil, nil)
+		it.Run(st)
+		fin := it.Finished
+		it.Finished = nil
+		for _, f := range fin {
+			from(f, k+1)
+		}
+	}
+	it.pushFrame(s, fn, args, nil, nil)
+	it.Run(s)
+	first := it.Finished
+	it.Finished = nil
+	for _, f := range first {
+		from(f, 0)
+	}
+	if os.Getenv("ORBCHECK_STATS") != "" {
+		fmt.Printf("STATS %s(%s): paths=%d judged=%d truncated=%d %v steps=%d\n", sp.entry, cs.label, it.Paths, judged, it.Truncated, it.TruncWhy, it.Steps)
+	}
+	if it.Truncated > 0 && !sp.skipTruncated {
+		return composeResult{verdict: Undecided, pos: pos, detail: fmt.Sprintf("exploration truncated (%v); the composition is not decided", it.TruncWhy)}
+	}
+	truncated := it.Truncated
+	for _, f := range it.Faults {
+		if f.Free {
+			return composeResult{verdict: Violated, pos: p.InstrPos(f.In), detail: fmt.Sprintf("%s fault while composing: %s", f.Kind, f.Detail)}
+		}
+	}
+	if failure != nil {
+		return *failure
 	}
 	if judged == 0 {
 		return composeResult{verdict: Undecided, pos: pos, detail: fmt.Sprintf("no finished path depends on the callees' answers alone (%d paths branch on other unknowns)", skipped)}
